@@ -114,4 +114,37 @@ Section AssemblyBalance.
     rewrite (BalancePrint.plain_rows_are_nodes NM (order_tree NM pi (built es)) Hsf).
     exact (ordered_paths_spec NM es pi Hpi).
   Qed.
+
+  (** ** every row of every mode shows the specified total of the path it names
+         (no logged name a path-prefix of another; plain mode needs no hypothesis,
+         see [balance_plain_rows_spec]) *)
+  Theorem balance_rows_amounts : forall (es : entries) (pi : list bytes -> list bytes) (collapse collapse_last : bool),
+    (forall l, Permutation (pi l) l) -> prefix_free NM es ->
+    forall p x lf, In (p, x, lf) (decode NM (balance_rows NM pi collapse collapse_last (built es))) ->
+      p <> [] /\ (exists f q, In (f, q) es /\ is_prefix_path p (segs f) = true) /\ x = total_at NM es p.
+  Proof.
+    intros es pi collapse cl Hpi Hpf p x lf Hin.
+    destruct (segments_slash_free NM es pi Hpi) as [_ Hsf].
+    destruct (prefix_free_chain_const NM es pi Hpi Hpf) as [_ Hcc].
+    destruct (ordered_paths_spec NM es pi Hpi) as (_ & _ & Hspec).
+    apply Hspec.
+    assert (Hin' : In (p, x) (map (fun '(p, x, _) => (p, x))
+                                  (decode NM (balance_rows NM pi collapse cl (built es))))).
+    { apply in_map_iff. exists (p, x, lf). split; [reflexivity|exact Hin]. }
+    rewrite BalancePrint.balance_rows_eq in Hin'.
+    destruct collapse; [|destruct cl].
+    - eapply BalancePrintBase.subseq_In; [apply BalancePrint.collapsed_rows_are_nodes; assumption|exact Hin'].
+    - eapply BalancePrintBase.subseq_In; [apply BalancePrint.collapse_last_rows_are_nodes; assumption|exact Hin'].
+    - unfold rows_plain in Hin'. rewrite BalancePrint.plain_rows_are_nodes in Hin' by assumption. exact Hin'.
+  Qed.
+
+  (** ** from the days of the log to the chunks the reporter writes at Flush *)
+  Theorem balance_report_rows : forall (c : rconfig) (perms : nat -> list bytes -> list bytes)
+      (pi : list bytes -> list bytes) (lns : list (lognode NM)),
+    r_flush NM (rep_balance NM c) pi (bal_run NM c perms lns) =
+    map (fun r => (render_row NM r, rc_collapse c))
+        (balance_rows NM pi (rc_collapse c) (rc_collapse_last c) (built (flat_map (ln_elems NM) lns))).
+  Proof.
+    intros c perms pi lns. rewrite (bal_run_is_built NM c perms lns). reflexivity.
+  Qed.
 End AssemblyBalance.
